@@ -112,7 +112,9 @@ def judge_open(doc, keep, dup, result, exc):
         kind = "I" if tfile["class"] == "IntervalTier" else "P"
         if tgot["t"] != kind:
             return False, "tier %r type %s, the file says %s" % (n, tgot["t"], tfile["class"])
-        exp = [tuple(e) for e in tfile["entries"]]
+        # tiers store labels without surrounding white space (C05), so that is how the file's labels come back; "empty" is judged on
+        # the label as returned
+        exp = [tuple(e[:-1]) + (e[-1].strip(),) for e in tfile["entries"]]
         if not keep:
             exp = [e for e in exp if e[-1] != ""]
         obs = [tuple(e) for e in tgot["entries"]]
@@ -199,8 +201,8 @@ def workload(tier, rng, shard, nshards, work):
         per_data = 6 if tier == "quick" else len(variants)
         vi = shard * 7
         for i in range(n):
-            data, _cl = tggen.gen_textgrid(rng, keywords=(i % 6 == 5), min_gap=0, scale_class=rng.choice(["normal", "normal", "tiny", "big"]),
-                                           full_span=rng.choice([True, True, None]))
+            data, _cl = tggen.gen_textgrid(rng, keywords=(i % 6 == 5), min_gap=0, scale_class=rng.choice(["normal", "normal", "tiny", "big", "epoch"]),
+                                           full_span=rng.choice([True, True, None]), ws_labels=True)
             spec = tggen.to_spec(data)
             dup = i % 7 == 3 and len(spec["tiers"]) >= 2
             if dup:
@@ -244,7 +246,7 @@ def workload(tier, rng, shard, nshards, work):
                     classes.append("C03:negzero")
                 _current["classes"] = classes
                 _current["sig"] = (lay, enc, nl, keep, dmode if dup else "-", tuple(sorted(set(styles))), tuple(sorted(lcs)), tuple(t["class"][0] for t in spec["tiers"]))
-                res = call(tgmod.openTextgrid, fn, keep, "silence", dmode)
+                res = call(tgmod.openTextgrid, fn, keep, rng.choice(("silence", "silence", "warning", "error")), dmode)
                 if res is not None and lay in ("long", "short", "elan-long") and not dup:
                     results.setdefault(keep, []).append((lay, snap.tg_snap(res)))
             # long and short encodings of the same data open to equal Textgrids
